@@ -2093,6 +2093,8 @@ PRIM_SIGS = {
     "np.zeros_like": [("a", "x")],
     "np.tile": ["A", "reps"],
     "np.argsort": ["a"],
+    "np.ravel_multi_index": ["multi_index", "dims"], "np.unravel_index": ["indices", "shape"],
+    "np.indices": ["dimensions"],
     "np.abs": ["x"], "np.absolute": ["x"], "np.exp": ["x"], "np.log": ["x"],
     "np.minimum": ["x1", "x2"], "np.maximum": ["x1", "x2"],
     "np.subtract": ["x1", "x2"], "np.add": ["x1", "x2"], "np.multiply": ["x1", "x2"], "np.divide": ["x1", "x2"],
